@@ -584,3 +584,59 @@ Proof.
   split. { vm_compute. repeat constructor; try (intros; reflexivity). }
   split; [vm_compute; reflexivity|]. split; vm_compute; reflexivity.
 Qed.
+
+(* ---------------------------------------------------------------- the rows annual_summary generates for one affiliate *)
+Lemma QcZ_succ z : QcZ (z + 1) = (QcZ z + 1)%Qc.
+Proof. apply Qc_is_canon. unfold QcZ, Qcplus, Q2Qc. cbn [this]. rewrite !Qred_correct. unfold inject_Z, Qplus, Qeq. cbn. lia. Qed.
+Local Open Scope Qc_scope.
+Lemma qn_QcZ k : qn k = QcZ (Z.of_nat k).
+Proof.
+  induction k as [|k IH]; [apply Qc_is_canon; reflexivity|]. cbn [qn]. rewrite IH, Nat2Z.inj_succ, <- Z.add_1_r, QcZ_succ. reflexivity.
+Qed.
+
+(* gain and loss of a year with net gain g *)
+Definition gl_of (g : Qc) : Qc * Qc := if Qcltb g 0 then (0, g * -(1)) else (g, 0).
+Definition ysell (af : aff) (aps : Qc) (yg : Z * Qc) : asell :=
+  {| as_af := af; as_date := jan1 (fst yg); as_aps := aps; as_gain := fst (gl_of (snd yg)); as_loss := snd (gl_of (snd yg)) |}.
+Lemma gl_of_nonneg g : 0 <= fst (gl_of g) /\ 0 <= snd (gl_of g) /\ fst (gl_of g) - snd (gl_of g) = g.
+Proof.
+  unfold gl_of. destruct (Qcltb_spec g 0) as [H|H]; cbn [fst snd]; repeat split; try qc_lra; ring.
+Qed.
+
+Lemma year_sells_exact like af aps ys : 0 <= aps ->
+  year_sells exact like af (Some aps) ys = Ok (map (fun yg => asell_tx like (ysell af aps yg)) ys).
+Proof.
+  intros Ha. induction ys as [|[y g] ys IH]; cbn [year_sells map]; [reflexivity|].
+  destruct (gl_of_nonneg g) as (H1 & H2 & _). unfold ysell, gl_of in *. cbn [fst snd] in *.
+  destruct (Qcltb g 0); cbn [fst snd a_mul exact bind] in *.
+  - rewrite (gez_unwrap_intro _ _ H2). cbn [bind fst snd]. rewrite (gez_add_ok aps 0) by qc_lra. cbn [bind].
+    rewrite IH. reflexivity.
+  - rewrite (gez_unwrap_intro _ _ H1). cbn [bind fst snd]. rewrite (gez_add_ok aps g) by qc_lra. cbn [bind].
+    rewrite IH. reflexivity.
+Qed.
+
+(* make_annual_gains_summary_txs for an affiliate that is not registered: the
+   base purchase of (shares + number of gain years) at the per-share cost on
+   1 January of the year before the first, one sale per gain year *)
+Theorem annual_summary_rows af fy ds d ys0 c :
+  af_reg af = false -> yearly_gains exact af ds [] = Ok ys0 ->
+  s_acb (d_post d) = Some c -> 0 <= c -> 0 <= s_sh (d_post d) ->
+  let ys := sort_years ys0 in
+  let aps := if Qcltb 0 (s_sh (d_post d)) then c / s_sh (d_post d) else 0 in
+  let h := {| ah_af := af; ah_sh := s_sh (d_post d); ah_aps := Some aps;
+              ah_n := s_sh (d_post d) + qn (length ys) |} in
+  annual_summary exact af fy ds d
+  = Ok ((if Qcltb 0 (ah_n h) then [abuy_tx (d_tx d) (jan1 (fy - 1)) h] else [])
+        ++ map (fun yg => asell_tx (d_tx d) (ysell af aps yg)) ys).
+Proof.
+  intros Hreg Hy Hacb Hc Hsh ys aps h. unfold annual_summary. rewrite Hreg, Hy. cbn [bind]. fold ys. rewrite Hacb.
+  assert (Haps : 0 <= aps).
+  { unfold aps. destruct (Qcltb_spec 0 (s_sh (d_post d))) as [Hp|_]; [apply Qcdiv_nonneg; assumption | qc_lra]. }
+  assert (Ebase : (if Qcltb 0 (s_sh (d_post d)) then v <- gez_div exact c (s_sh (d_post d));; Ok (Some v) else Ok (Some 0))
+                  = Ok (Some aps)).
+  { unfold aps. destruct (Qcltb_spec 0 (s_sh (d_post d))) as [Hp|_]; [|reflexivity].
+    rewrite gez_div_ok; [reflexivity | apply Qclt_not_eq'; exact Hp | apply Qcdiv_nonneg; assumption]. }
+  rewrite Ebase. cbn [bind]. pose proof (qn_nonneg (length ys)) as Hq.
+  rewrite <- qn_QcZ. rewrite (gez_add_ok (s_sh (d_post d)) (qn (length ys))) by qc_lra. cbn [bind].
+  rewrite (year_sells_exact (d_tx d) af aps ys Haps). cbn [bind]. reflexivity.
+Qed.
